@@ -18,7 +18,7 @@ Tie to the code, on every run (needs the RKCOMMON_VERIF scheduling points in Asy
   4. unforced stress (start/stop cycles, body checks a "stop has returned" flag), plain and with random delays
      injected after every atomic access of AsyncLoop (works without hooks: fallback when the tree has none).
 """
-import json, os, re
+import json, os, re, signal, subprocess, threading, time
 import vlib
 
 ORACLE_TEXT = {
@@ -68,6 +68,100 @@ def interleaved(toks):
     return sw >= 1 and any(t == "C" for t in toks)
 
 
+# ------------------------------------------------------------------------------------------------ supervision
+# The check has a global wall-clock budget; every child process gets min(its own cap, what is left) and is killed
+# (whole process group, SIGKILL: the harness may sit in join()) at that deadline.  Whether a killed child was
+# HANGING or merely SLOW is decided on its heartbeat (a progress counter printed once a second), not on time.
+RESERVE = 12          # seconds kept for writing evidence
+STALL = 45            # a killed child whose progress counter stood still this long was hanging
+
+
+class Sup:
+    def __init__(self, ctx):
+        self.ctx = ctx
+        self.hard = ctx.t0 + ctx.pick(8 * 60, 20 * 60)          # hard stop
+        self.soft = ctx.t0 + ctx.pick(4 * 60, 12 * 60)          # no new optional stage after this
+        self.hang_confirmed = False
+        self.not_completed, self.skipped = [], []
+        self._tl = threading.local()      # children are also run from worker threads
+        ctx.cov["stages_not_completed"] = self.not_completed
+        ctx.cov["stages_skipped"] = self.skipped
+
+    @property
+    def last(self):
+        return getattr(self._tl, "last", None)
+
+    @last.setter
+    def last(self, v):
+        self._tl.last = v
+
+    def left(self):
+        return self.hard - time.time() - RESERVE
+
+    def go(self, stage, optional=True):
+        """may this stage start?"""
+        if self.ctx.violations:
+            self.skipped.append("%s: skipped, a violation with a concrete input is already confirmed" % stage)
+            return False
+        if self.left() < 5 or (optional and time.time() > self.soft):
+            self.skipped.append("%s: not run, the check's wall-clock budget is used up" % stage)
+            return False
+        return True
+
+    def patient(self):
+        """is a 4x-patience second opinion allowed?"""
+        return not self.hang_confirmed and self.left() > 30
+
+    def run(self, exe, args=(), stdin=None, timeout=600, env=None):
+        ctx = self.ctx
+        own = {"replay": 240, "explore": 200, "stress": 120, "launch": 120, "probe": 60}.get(args[0] if args else "", timeout)
+        own *= ctx.pick(1, 4) * (2 if env and env.get("C03_PATIENCE") else 1)
+        cap = min(timeout, own, self.left())
+        label = "%s %s%s" % (os.path.basename(exe), " ".join(args)[:60], (" [%s]" % ",".join("%s=%s" % kv for kv in sorted(env.items()))) if env else "")
+        self.last = {"label": label, "killed": False, "stalled_s": 0}
+        if cap < 2:
+            self.not_completed.append("%s: not started, budget used up" % label)
+            self.last["killed"] = True
+            return 124, "", "[C03] not started: budget used up"
+        e = dict(os.environ)
+        e.update(ctx.SAN_ENV)
+        e.update(env or {})
+        e["C03_HEARTBEAT"] = "1"
+        p = subprocess.Popen([exe] + list(args), stdin=subprocess.PIPE, stdout=subprocess.PIPE, stderr=subprocess.PIPE, env=e,
+                             universal_newlines=True, errors="replace", start_new_session=True)
+        killed = False
+        try:
+            out, err = p.communicate(stdin, timeout=cap)
+        except subprocess.TimeoutExpired:
+            killed = True
+            try:
+                os.killpg(p.pid, signal.SIGKILL)
+            except OSError:
+                pass
+            out, err = p.communicate()
+        rc = 124 if killed else p.returncode
+        hb = [(int(a), int(b)) for a, b in re.findall(r"^HB (\d+) (\d+)$", err, re.M)]
+        err = re.sub(r"^HB \d+ \d+\n", "", err, flags=re.M)
+        if killed:
+            stalled = 0
+            if hb:
+                moved = [ts for (ts, c), (_, c0) in zip(hb[1:], hb[:-1]) if c != c0]
+                stalled = (hb[-1][0] - (moved[-1] if moved else hb[0][0])) / 1000.0
+            self.last.update(killed=True, stalled_s=stalled)
+            hanging = stalled >= STALL or self.hang_confirmed
+            why = ("killed at its deadline (%.0f s); code under test hangs (no progress for %.0f s)" % (cap, stalled) if hanging else
+                   "killed at its deadline (%.0f s) while still making progress -- slow machine, not a finding" % cap)
+            self.not_completed.append("%s: %s" % (label, why))
+            ctx.log("child %s" % self.not_completed[-1])
+            if hanging and not ctx.violations and not self.hang_confirmed:
+                ctx.broken.append("no verdict: %s made no progress for %.0f s and was killed" % (label, stalled))
+                self.hang_confirmed = True
+        return rc, out, err
+
+    def killed(self):
+        return bool(self.last and self.last["killed"])
+
+
 PATIENT = {"C03_PATIENCE": "4"}   # second opinion: every sample count / budget of the harness x4
 BIG = 3600                        # python-level time-outs are only a last resort: the harness decides on
                                   # thread state / progress, never on elapsed time alone
@@ -85,6 +179,12 @@ def stress(ctx, exe, launch, cycles, seed, inject, budget_ms):
     cfg = {"mode": "stress", "launch": launch, "cycles": cycles, "stress_seed": seed, "inject_delays": inject, "budget_ms": budget_ms,
            "rerun": "%s stress %s %d %d %d %d" % (exe, launch, cycles, seed, inject, budget_ms)}
     suspicious = (not m) or int(m.group(6)) > 0
+    if suspicious and ctx.sup.killed():
+        return None
+    if suspicious and not ctx.sup.patient():
+        ctx.sup.not_completed.append("stress %s inject=%d: %s; not re-run (a hang is already confirmed / no budget)"
+                                     % (launch, inject, (out.strip().split("\n") or ["no output"])[0][:200]))
+        return None
     if suspicious:
         # no progress for 30 s / a loop thread seen blocked: confirm with 4x patience before reporting
         ctx.log("stress %s inject=%d: %s -- re-running this configuration with 4x patience"
@@ -92,9 +192,12 @@ def stress(ctx, exe, launch, cycles, seed, inject, budget_ms):
         first = out
         rc, out, err, m = stress_once(ctx, exe, launch, cycles, seed, inject, budget_ms, env=PATIENT)
         ctx.cov.setdefault("stress_reruns", []).append({"config": cfg, "first": first[-400:], "second": out[-400:]})
+    if not m and ctx.sup.killed():
+        return None
     if not m:
         what = "stress run did not finish, twice (rc=%s): %s" % (rc, (out + err)[-1200:].strip())
         if "STRESS-HANG" in out:
+            ctx.sup.hang_confirmed = True
             ctx.violation("unforced start/stop/destroy stress: no progress at all for 120 s, confirmed on a second run "
                           "(stop() or the destructor does not return)",
                           dict(cfg, observed=what, required="stop() and the destructor terminate"))
@@ -123,8 +226,36 @@ def launch_once(ctx, exe, method, n, env=None):
     e.update(env or {})
     rc, out, err = ctx.run_exe(exe, ["launch"], timeout=BIG, env=e)
     m = re.search(r"LAUNCH method=(\w+) requested_threads=(-?\d+) num_tasking_threads=(-?\d+) joinable=(\d) dtor_waited=(\d) "
-                  r"body_finished_when_dtor_returned=(-?\d+) body_begins_after_dtor=(-?\d+) loop_gone=(\d)", out)
+                  r"body_finished_when_dtor_returned=(-?\d+) body_begins_after_dtor=(-?\d+) loop_gone=(-?\d+)", out)
+    ctx.c03_err = err
     return rc, out, m
+
+
+def launch_memory_safety(ctx, exe_asan):
+    """TASK-resolved launches under ASan+UBSan, TBB backend: start, destroy while the body is in flight, keep the process alive while the
+    loop task winds down; the harness holds NO reference to the shared state (C03_NOHOLD), so a loop task that does not co-own that
+    state touches freed memory"""
+    rows = []
+    for method, n in (("TASK", 0), ("TASK", 2), ("TASK", 8), ("AUTO", 8), ("THREAD", 2)):
+        if not ctx.sup.go("memory-safety launch scenario %s/%d" % (method, n), optional=False):
+            continue
+        rc, out, m = launch_once(ctx, exe_asan, method, n, {"C03_NOHOLD": "1"})
+        err = getattr(ctx, "c03_err", "")
+        if ctx.sup.killed():
+            continue
+        ctx.count(1)
+        rows.append({"method": method, "nthreads": n, "rc": rc, "sanitizer_report": "AddressSanitizer" in err or "runtime error" in err})
+        if rc in (99, 98) or "ERROR: AddressSanitizer" in err:
+            head = [ln.strip() for ln in err.split("\n") if "ERROR: AddressSanitizer" in ln or "runtime error" in ln or re.match(r"\s+#[0-6] ", ln)][:9]
+            ctx.violation("requested launch %s, tasking system of %d threads (TBB, ASan): the loop task touches the AsyncLoop's shared state after "
+                          "~AsyncLoop has freed it (the task outlives the object and does not co-own the state)" % (method, n),
+                          {"mode": "launch", "backend": "tbb-asan", "method": method, "nthreads": n, "nohold": 1, "observed": head,
+                           "rerun": "C03_NOHOLD=1 C03_METHOD=%s C03_NTHREADS=%d %s launch" % (method, n, exe_asan),
+                           "required": "destroying the AsyncLoop is safe on both launch methods: the non-joined loop task may finish later but only "
+                                       "touches state it co-owns (no use after free)"})
+        elif not m:
+            ctx.broken.append("memory-safety launch scenario %s/%d gave no result: rc=%s %s" % (method, n, rc, (out + err)[-300:]))
+    ctx.cov["launch_memory_safety_asan_tbb"] = rows
 
 
 def launch_matrix(ctx, model, exes):
@@ -134,12 +265,25 @@ def launch_matrix(ctx, model, exes):
     for backend, exe in exes:
         for method in METHODS:
             for n in SIZES:
+                if not ctx.sup.go("launch scenario %s/%s/%d" % (backend, method, n), optional=False):
+                    continue
                 rc, out, m = launch_once(ctx, exe, method, n)
+                if not m and "LAUNCH-HANG" in out:
+                    ctx.sup.hang_confirmed = True
+                    ctx.violation("requested launch %s on a tasking system of %d threads (%s backend), destroyed while a body invocation was in "
+                                  "flight: %s" % (method, n, backend, out.strip().split("\n")[0][:400]),
+                                  {"mode": "launch", "backend": backend, "method": method, "nthreads": n, "observed": out.strip()[-600:],
+                                   "rerun": "C03_METHOD=%s C03_NTHREADS=%d %s launch" % (method, n, exe), "required": ORACLE_TEXT["hang"][1]})
+                    continue
+                if not m and (ctx.sup.killed() or not ctx.sup.patient()):
+                    continue
                 if not m:
                     ctx.log("launch scenario %s/%s/%d gave no result (%s) -- re-running with 4x patience" % (backend, method, n, out.strip()[:200]))
                     rc, out, m = launch_once(ctx, exe, method, n, PATIENT)
                 cfg = {"mode": "launch", "backend": backend, "method": method, "nthreads": n,
                        "rerun": "C03_METHOD=%s C03_NTHREADS=%d %s launch" % (method, n, exe)}
+                if not m and ctx.sup.killed():
+                    continue
                 if not m:
                     if "LAUNCH-STUCK" in out:
                         ctx.violation("launch %s on a tasking system of %d threads (%s): the body never ran after start() returned, twice" % (method, n, backend),
@@ -182,6 +326,8 @@ def forced_config(ctx, exe, method, n, cases, mlines):
     rc, il, err = vlib.run_lines(ctx, exe, ["replay"], cases, timeout=BIG, env=env)
     bad = [i for i in range(len(cases)) if (il[i] if i < len(il) else "<no output>") != mlines[i]]
     out = []
+    if bad and not ctx.sup.patient():
+        return [(i, il[i] if i < len(il) else "<no output>", mlines[i]) for i in bad if (il[i] if i < len(il) else "") != "SKIPPED"]
     if bad:
         rc, il2, err = vlib.run_lines(ctx, exe, ["replay"], [cases[i] for i in bad], timeout=BIG, env=dict(env, **PATIENT))
         for k, i in enumerate(bad):
@@ -195,7 +341,7 @@ def explore_config(ctx, exe, method, n, letter, maxstates, budget):
     env = {"C03_METHOD": method, "C03_NTHREADS": str(n)}
     xargs = ["explore", letter, str(maxstates), str(budget)]
     rc, out, err = ctx.run_exe(exe, xargs, timeout=BIG, env=env)
-    if "XVIOL " in out or "XDONE" not in out:
+    if ("XVIOL " in out or "XDONE" not in out) and ctx.sup.patient() and not ctx.sup.killed():
         first = out
         rc, out, err = ctx.run_exe(exe, xargs, timeout=BIG, env=dict(env, **PATIENT))
         k1 = set(re.findall(r"XVIOL (\w+)", first))
@@ -205,6 +351,7 @@ def explore_config(ctx, exe, method, n, letter, maxstates, budget):
 
 def run(ctx):
     if getattr(ctx, "replay", None):
+        ctx.sup = Sup(ctx)
         doc = json.load(open(ctx.replay))
         exe = ctx.cxx(["harness.cpp"], "harness", backend="omp", sanitize=None)
         if exe and doc.get("schedule"):
@@ -214,19 +361,23 @@ def run(ctx):
             rc, out, err = ctx.run_exe(exe, ["replay"], stdin="R %s %s\n" % (doc.get("launch", "T"), doc["schedule"]), timeout=BIG, env=env)
             print("replay of %s on %s:\n  %s" % (doc["schedule"], ctx.repo, out.strip().replace(" ; ", "\n  ")))
         elif doc.get("mode") == "launch":
-            exe2 = exe if doc.get("backend") == "omp" else ctx.cxx(["harness.cpp"], "harness_tbb", backend="tbb", sanitize=None)
-            rc, out, m = launch_once(ctx, exe2, doc["method"], doc["nthreads"])
-            print(out.strip())
+            exe2 = (exe if doc.get("backend") == "omp" else
+                    ctx.cxx(["harness.cpp"], "harness_tbb_asan", backend="tbb", sanitize="asan") if doc.get("backend") == "tbb-asan" else
+                    ctx.cxx(["harness.cpp"], "harness_tbb", backend="tbb", sanitize=None))
+            rc, out, m = launch_once(ctx, exe2, doc["method"], doc["nthreads"], {"C03_NOHOLD": "1"} if doc.get("nohold") else None)
+            print(out.strip() + "\n" + getattr(ctx, "c03_err", "")[:1500])
         elif exe and doc.get("mode") == "stress":
             rc, out, err = ctx.run_exe(exe, ["stress", doc["launch"], str(doc["cycles"]), str(doc["stress_seed"]), str(doc["inject_delays"]),
                                              str(doc.get("budget_ms", 600000))], timeout=BIG)
             print(out.strip())
         return
 
+    ctx.sup = Sup(ctx)
     ctx.coq_check(("Properties.v",))
     model = ctx.extract()
-    exe, exe_tbb = ctx.cxx_many([dict(sources=["harness.cpp"], out="harness", backend="omp", sanitize=None),
-                                 dict(sources=["harness.cpp"], out="harness_tbb", backend="tbb", sanitize=None)])
+    exe, exe_tbb, exe_asan = ctx.cxx_many([dict(sources=["harness.cpp"], out="harness", backend="omp", sanitize=None),
+                                           dict(sources=["harness.cpp"], out="harness_tbb", backend="tbb", sanitize=None),
+                                           dict(sources=["harness.cpp"], out="harness_tbb_asan", backend="tbb", sanitize="asan")])
     ctx.trusted += [
         "interleaving semantics given to the C++ primitives in coq/C03/Model.v: seq_cst std::atomic load/store = one atomic step of a "
         "sequentially consistent interleaving; std::mutex = mutual exclusion; condition_variable::wait(lock,pred) = while(!pred){atomically "
@@ -245,8 +396,9 @@ def run(ctx):
         "17 model edges per launch method (controller locks the mutex while a notified sleeper has not yet re-locked) cannot be forced: "
         "on the real code the woken thread re-locks on its own; they are covered by the Coq theorems only",
     ]
-    if not model or not exe or not exe_tbb:
+    if not model or not exe or not exe_tbb or not exe_asan:
         return
+    ctx.run_exe = ctx.sup.run          # every child from here on: global budget, process-group kill, heartbeat
     rc, out, err = ctx.run_exe(exe, ["probe"], timeout=BIG)
     hooks = "HOOKS=1" in out
     ctx.cov["hooks_present"] = hooks
@@ -281,23 +433,32 @@ def run(ctx):
         ctx.cov["model_graph"] = hdr
 
         mism, crashes, mlines = vlib.differential(ctx, cases, model, [("AsyncLoop", exe, ["replay"])], model_args=["run", "repaired"], timeout=BIG)
-        if mism or crashes:
-            # second opinion before anything is reported: the differing schedules alone, 4x patience
-            idx = sorted({i for (i, lab, il, ml) in mism})
+        first_killed = ctx.sup.killed()
+        if first_killed:
+            crashes = {}          # the supervisor has recorded it (slow / hanging); lines not produced are not findings
+            mism = [m_ for m_ in mism if not m_[2].startswith("<no output")]
+        if (mism or crashes) and ctx.sup.patient():
+            # second opinion before anything is reported, 4x patience: first the schedules that really differ (at most 40);
+            # those the harness skipped after 3 time-outs only if the first group turns out to be spurious
+            real = sorted({i for (i, lab, il, ml) in mism if il != "SKIPPED"})[:40]
+            rest = sorted({i for (i, lab, il, ml) in mism if il == "SKIPPED"})
             if crashes:
                 n0 = min(n for (_, _, n) in crashes.values())
-                idx = sorted(set(idx) | set(range(n0, len(cases))))
-            ctx.log("forced replay: %d schedule(s) differ or were not run -- re-running them with 4x patience" % len(idx))
-            sub = [cases[i] for i in idx]
-            rc2_, il2, err2_ = vlib.run_lines(ctx, exe, ["replay"], sub, timeout=BIG, env=PATIENT)
-            ctx.cov["forced_reruns"] = {"schedules": len(idx), "first_pass_examples": [m_[2][-160:] for m_ in mism[:3]]}
+                rest = sorted(set(rest) | set(range(n0, len(cases))))
+            ctx.cov["forced_reruns"] = {"schedules": len(real), "first_pass_examples": [m_[2][-160:] for m_ in mism[:3]]}
             mism2, crashes2 = [], {}
-            for k, i in enumerate(idx):
-                il = il2[k] if k < len(il2) else "<no output: harness died>"
-                if il != mlines[i]:
-                    mism2.append((i, "AsyncLoop", il, mlines[i]))
-            if rc2_ != 0:
-                crashes2["AsyncLoop"] = (rc2_, err2_[-3000:], idx[len(il2)] if len(il2) < len(idx) else len(cases))
+            for grp in (real, rest):
+                if not grp or (grp is rest and mism2):
+                    continue
+                ctx.log("forced replay: re-running %d differing / not-run schedule(s) with 4x patience" % len(grp))
+                rc2_, il2, err2_ = vlib.run_lines(ctx, exe, ["replay"], [cases[i] for i in grp], timeout=BIG, env=PATIENT)
+                killed2 = ctx.sup.killed()
+                for k, i in enumerate(grp):
+                    il = il2[k] if k < len(il2) else ("SKIPPED" if killed2 else "<no output: harness died>")
+                    if il != mlines[i]:
+                        mism2.append((i, "AsyncLoop", il, mlines[i]))
+                if rc2_ != 0 and not killed2:
+                    crashes2["AsyncLoop"] = (rc2_, err2_[-3000:], grp[len(il2)] if len(il2) < len(grp) else len(cases))
             mism, crashes = mism2, crashes2
         steps = sum(len(tokens(c)) for c in cases)
         ctx.count(steps)
@@ -315,6 +476,7 @@ def run(ctx):
         forced_viol = False
         for label, (rc, errt, n) in crashes.items():
             sched = cases[n] if n < len(cases) else None
+            ctx.sup.hang_confirmed = True
             ctx.violation("forcing a schedule on the real AsyncLoop hangs or crashes the harness (rc=%d)" % rc,
                           {"launch": sched.split()[1] if sched else None, "schedule": " ".join(tokens(sched)) if sched else None,
                            "stderr_tail": errt[-500:], "required": ORACLE_TEXT["hang"][1]}, found_input=sched is not None)
@@ -327,6 +489,7 @@ def run(ctx):
                 continue
             if ("CLEANUP-HANG" in il or "STUCK:" in il) and not forced_viol:
                 kind = "hang" if "CLEANUP-HANG" in il else "stuck"
+                ctx.sup.hang_confirmed = True
                 ctx.violation("forced schedule on the real AsyncLoop: " + ORACLE_TEXT[kind][0],
                               {"launch": cases[i].split()[1], "schedule": " ".join(tokens(cases[i])), "observed": il.split(" ; ")[-2:],
                                "model_final_state": ml.split(" ; ")[-1], "required": ORACLE_TEXT[kind][1]})
@@ -345,9 +508,11 @@ def run(ctx):
         ctx.cov["first_mismatches"] = corr[:5]
 
         # the refuting schedule of the Original system, forced on the current tree
-        rc, out, err = ctx.run_exe(exe, ["replay"], stdin="R T %s\nR K %s\n" % (refute, refute), timeout=BIG)
-        ctx.count(2 * len(refute.split()))
-        rl = out.strip().split("\n")
+        out = ""
+        if ctx.sup.go("refuting schedule of the Original model", optional=False):
+            rc, out, err = ctx.run_exe(exe, ["replay"], stdin="R T %s\nR K %s\n" % (refute, refute), timeout=BIG)
+            ctx.count(2 * len(refute.split()))
+        rl = [x for x in out.strip().split("\n") if x]
         ctx.cov["refuting_schedule_on_this_tree"] = [x.split(" ; ")[-1] for x in rl]
         for l, x in zip("TK", rl):
             if "!VIOL:" in x and not forced_viol:
@@ -361,9 +526,11 @@ def run(ctx):
         # implementation-side exploration with the property oracles
         xs = {}
         for l in ("T", "K"):
-            xargs = ["explore", l, str(ctx.pick(3000, 20000)), str(ctx.pick(600000, 3000000))]
+            if not ctx.sup.go("implementation exploration (OpenMP backend, launch %s)" % l):
+                continue
+            xargs = ["explore", l, str(ctx.pick(3000, 20000)), str(ctx.pick(150000, 600000))]
             rc, out, err = ctx.run_exe(exe, xargs, timeout=BIG)
-            if "XVIOL " in out or "XDONE" not in out:
+            if ("XVIOL " in out or "XDONE" not in out) and ctx.sup.patient() and not ctx.sup.killed():
                 # second opinion with 4x patience; only what shows up again is reported
                 ctx.log("exploration (launch %s) reported %s -- re-running with 4x patience"
                         % (l, sorted(set(re.findall(r"XVIOL (\w+)", out))) or "no result"))
@@ -385,8 +552,11 @@ def run(ctx):
                 if m:
                     xs[l] = dict(zip(("states", "edges", "replays", "progress_checks", "complete", "violations"), map(int, m.groups())))
                     ctx.count(xs[l]["replays"])
-            if l not in xs:
+            if l not in xs and ctx.sup.killed():
+                pass
+            elif l not in xs:
                 if rc == 4 or "HANG" in out:
+                    ctx.sup.hang_confirmed = True
                     ctx.violation("exploration of the real AsyncLoop: tearing down hangs (destructor / join does not return)",
                                   {"launch": l, "observed": out[-400:], "required": ORACLE_TEXT["hang"][1]}, found_input=False)
                 else:
@@ -409,6 +579,8 @@ def run(ctx):
             for n in SIZES:
                 rc_, exp, _ = vlib.sh2([model, "resolve", method, str(n)], timeout=BIG)
                 cfgs.append((method, n, exp.strip()))
+        if not ctx.sup.go("forced replay on the TBB backend (9 method x size configurations)"):
+            cfgs = []
         with ThreadPoolExecutor(max_workers=3) as ex:
             res = list(ex.map(lambda c: forced_config(ctx, exe_tbb, c[0], c[1], cover[c[2]], cover_m[c[2]]), cfgs))
         tb = {}
@@ -429,6 +601,8 @@ def run(ctx):
                 else:
                     corr.append("TBB %s/%d schedule %r step %d: impl %r / model %r" % (method, n, cover[l][i], k + 1, sx, sy))
         xcfgs = cfgs if ctx.thorough() else [c for c in cfgs if (c[0], c[1]) in (("THREAD", 8), ("AUTO", 8), ("TASK", 2))]
+        if xcfgs and not ctx.sup.go("implementation exploration on the TBB backend"):
+            xcfgs = []
         with ThreadPoolExecutor(max_workers=3) as ex:
             xres = list(ex.map(lambda c: explore_config(ctx, exe_tbb, c[0], c[1], c[2], ctx.pick(3000, 20000), ctx.pick(600000, 3000000)), xcfgs))
         for (method, n, l), (rc, out) in zip(xcfgs, xres):
@@ -447,7 +621,7 @@ def run(ctx):
                     if int(m.group(5)) and not ctx.violations and (int(m.group(1)), int(m.group(2))) != (hdr[l]["forcible_states"], hdr[l]["forcible_edges"]):
                         ctx.broken.append("correspondence (TBB %s): real state graph %s/%s vs model %d/%d"
                                           % (key, m.group(1), m.group(2), hdr[l]["forcible_states"], hdr[l]["forcible_edges"]))
-            if "XDONE" not in out:
+            if "XDONE" not in out and rc != 124:
                 ctx.broken.append("implementation exploration on TBB %s did not finish: rc=%s %s" % (key, rc, out[-200:]))
         ctx.cov["forced_tbb_by_method_and_size"] = tb
         if corr and not ctx.violations:
@@ -461,6 +635,7 @@ def run(ctx):
 
     # ------------------------------------------------------------------ launch-method resolution (no hooks needed)
     launch_matrix(ctx, model, [("tbb", exe_tbb), ("omp", exe)])
+    launch_memory_safety(ctx, exe_asan)
 
     # ------------------------------------------------------------------ unforced stress
     st = []
@@ -468,14 +643,14 @@ def run(ctx):
     budget = ctx.pick(5000, 60000)    # ms per configuration (time box; the number of cycles done is reported)
     for l in ("T", "K"):
         for (n, inj) in ((n_plain, 0), (n_inj, 1)):
-            if ctx.violations:   # a concrete failing schedule / stress run is already in hand
-                break
+            if not ctx.sup.go("stress launch %s inject=%d" % (l, inj), optional=False):
+                continue
             s = stress(ctx, exe, l, n, ctx.seed, inj, budget)
             if s:
                 st.append(s)
     ctx.cov["stress"] = st
     if ctx.thorough():
-        tsan = ctx.cxx(["harness.cpp"], "harness_tsan", backend="omp", sanitize="tsan")
+        tsan = ctx.cxx(["harness.cpp"], "harness_tsan", backend="omp", sanitize="tsan") if ctx.sup.go("TSan stress") else None
         if tsan:
             rc, out, err = ctx.run_exe(tsan, ["stress", "T", "3000", str(ctx.seed), "0", "120000"], timeout=BIG)
             ctx.cov["tsan_stress_rc"] = rc
